@@ -377,6 +377,9 @@ class Circuit:
         e = self.ents[num]
         cb = e.get("control_behavior", {}) or {}
         cond = cb.get("circuit_condition")
+        if self.root(num, 1) is None and self.root(num, 2) is None:
+            # circuit conditions only apply to an entity that is connected to a circuit network
+            return True, "not-connected"
         if "circuit_enabled" in cb and cb["circuit_enabled"] is False:
             return True, "circuit_enabled=false"
         if cond is None:
